@@ -86,8 +86,11 @@ func c16(e *Env) {
 	for _, n := range g.Nodes {
 		if n.IsBuiltin("delete") {
 			k := e.xargSym(n, 1).String()
-			m := e.xargSym(n, 0).String()
-			if strings.Contains(k, ".driver") && (m == "$procs" || strings.HasSuffix(m, ".procs")) {
+			ms := e.xargSym(n, 0)
+			// a delete of the driver from a process map (the run set or the workflow's own map - by type)
+			isProcMap := ms != nil && ms.Val != nil && strings.HasPrefix(ms.Val.Type().String(), "map[string]") && strings.HasSuffix(ms.Val.Type().String(), "WorkflowProcess")
+			drv := "." + fieldName(e.P.FieldVar("scipipe", "Workflow", "driver"))
+			if strings.Contains(k, drv) && isProcMap {
 				delDrv = true
 			}
 		}
@@ -151,7 +154,7 @@ func (e *Env) c16BaseReady() {
 			var load *core.Node
 			for _, m := range g.Nodes {
 				if m.Ctx == n.Inl {
-					if v, ok := m.Instr.(ssa.Value); ok && fieldOfLoad(v) != nil && fieldOfLoad(v).Name() == "ready" {
+					if v, ok := m.Instr.(ssa.Value); ok && fieldOfLoad(v) != nil && isBoolType(fieldOfLoad(v).Type()) {
 						load = m
 					}
 				}
